@@ -255,6 +255,70 @@ def neutral_changes(g, rng, ir):
     return N
 
 
+def node_spec(g, x):
+    """What deep_eq documents as compared for a node of each kind, as a value: own attributes, children by UUID order, and the
+    nodes reached through references (a symbol's referent, an expression's symbols, a module's entry point) compared deeply."""
+    if x is None:
+        return None
+    if isinstance(x, g.ProxyBlock):
+        return ("P", x.uuid.int)
+    if isinstance(x, g.CodeBlock):
+        return ("C", x.uuid.int, x.offset, x.size, x.decode_mode.value)
+    if isinstance(x, g.DataBlock):
+        return ("D", x.uuid.int, x.offset, x.size)
+    if isinstance(x, g.Symbol):
+        return ("Y", x.uuid.int, x.name, bool(x.at_end), x.value, node_spec(g, x.referent))
+    if isinstance(x, g.SymAddrConst):
+        return ("AC", x.offset, node_spec(g, x.symbol), tuple(sorted(int(a) if isinstance(a, int) else a.value for a in x.attributes)))
+    if isinstance(x, g.SymAddrAddr):
+        return ("AA", x.scale, x.offset, node_spec(g, x.symbol1), node_spec(g, x.symbol2),
+                tuple(sorted(int(a) if isinstance(a, int) else a.value for a in x.attributes)))
+    if isinstance(x, g.ByteInterval):
+        return ("BI", x.uuid.int, x.address, bytes(x.contents), x.size,
+                tuple(sorted((node_spec(g, b) for b in x.blocks), key=lambda t: t[1])),
+                tuple(sorted((k, node_spec(g, e)) for k, e in x.symbolic_expressions.items())))
+    if isinstance(x, g.Section):
+        return ("S", x.uuid.int, x.name, tuple(sorted(f.value for f in x.flags)),
+                tuple(sorted((node_spec(g, b) for b in x.byte_intervals), key=lambda t: t[1])))
+    if isinstance(x, g.Module):
+        return ("M", x.uuid.int, x.name, x.binary_path, x.isa.value, x.byte_order.value, x.file_format.value, x.preferred_addr, x.rebase_delta,
+                tuple(sorted(x.aux_data)), node_spec(g, x.entry_point),
+                tuple(sorted((node_spec(g, n) for n in x.proxies), key=lambda t: t[1])),
+                tuple(sorted((node_spec(g, n) for n in x.sections), key=lambda t: t[1])),
+                tuple(sorted((node_spec(g, n) for n in x.symbols), key=lambda t: t[1])))
+    return None
+
+
+def node_level_pairs(ctx, g, a, b, tag, what):
+    """every node of a against the node of b with the same UUID and class: deep_eq both ways must equal equality of node_spec"""
+    na, nb = nodes_by_uuid(a), nodes_by_uuid(b)
+    for u, x in na.items():
+        y = nb.get(u)
+        if y is None or type(x) is not type(y) or isinstance(x, g.IR):
+            continue
+        try:
+            want = node_spec(g, x) == node_spec(g, y)
+            xy, yx = x.deep_eq(y), y.deep_eq(x)
+        except Exception as e:  # noqa: BLE001
+            ctx.add("oracle", "deep_eq-raised:node", "%s.deep_eq raised %s after %s" % (type(x).__name__, exc_name(g, e), what), {"tag": tag})
+            continue
+        ctx.count("node_pairs:" + type(x).__name__ + (":equal" if want else ":different"))
+        if xy is not want or yx is not want:
+            ctx.add("oracle", "deep_eq-node:%s" % type(x).__name__,
+                    "after %s the two %s nodes %s are %s in what deep_eq compares, but x.deep_eq(y)=%s, y.deep_eq(x)=%s"
+                    % (what, type(x).__name__, x.uuid, "equal" if want else "different", xy, yx),
+                    {"tag": tag, "what": what, "node": str(x.uuid), "kind": type(x).__name__,
+                     "a": protocheck.save_bytes(a).hex() if _can_save(a) else None})
+
+
+def _can_save(x):
+    try:
+        protocheck.save_bytes(x)
+        return True
+    except Exception:  # noqa: BLE001
+        return False
+
+
 def copy_of(g, ir):
     return protocheck.load_bytes(g, protocheck.save_bytes(ir))
 
@@ -341,6 +405,7 @@ def run(ctx):
                 continue
             seen_kinds[nm] = seen_kinds.get(nm, 0) + 1
             judge_pair(ir, cp, "P%d:%s" % (i, nm), nm)
+            node_level_pairs(ctx, g, ir, cp, "P%d:%s" % (i, nm), nm)
             ctx.case("P%d:%s" % (i, nm), True)
         for nm, f in neutral_changes(g, ctx.rng, copy_of(g, ir))[:0]:
             pass
